@@ -20,7 +20,7 @@ ASSUMPTIONS = [
 CASES = {"quick": 6000, "thorough": 400000}
 MIN_CASES = {"quick": 1500, "thorough": 30000}
 REQUIRED_CLASSES = ["split", "grid"]
-REQUIRED_COUNTERS = ["split_judged", "grid_judged", "aspect_checked", "count_checked", "parent_tiling_checked", "untouched_checked", "accessor_checked", "r_below_2"]
+REQUIRED_COUNTERS = ["split_judged", "grid_judged", "aspect_checked", "count_checked", "parent_tiling_checked", "untouched_checked", "accessor_checked", "r_below_2", "inadmissible_requests_first"]
 RS = [1.416, 1.42, 1.5, 1.7, 1.99, 2, 2.5, 3, 10]
 
 
@@ -42,7 +42,10 @@ def generate(rng, tier, i):
         return {"cls": "split", "die": {"fam": "int", "W": W, "H": H, "regions": [], "fixed": {}, "struct": "just_above_limit"}, "steps": [[r, 1]]}
     d = gd.gen_die(rng, max_n=10)
     steps = [[rng.choice(RS), rng.choice([1, 1, 2, 3, 4, 5, 7, 8, 16, 17, 32, 64, rng.randint(1, 64)])] for _ in range(rng.choice([1, 1, 2, 3]))]
-    return {"cls": "split", "die": c01._slim(d), "steps": steps}
+    case = {"cls": "split", "die": c01._slim(d), "steps": steps}
+    if rng.random() < 0.15:
+        case["bad_first"] = rng.choice([[1.2, 4], [1.0, 2], [1.41, 3], [2, 0], [1.5, -1]])
+    return case
 
 
 def directed():
@@ -135,6 +138,16 @@ def check(case, ctx):
     if len(die.specialized_regions) + len(die.ground_regions) == 0:
         ctx.count("no_refinable_region_skipped")
         return
+    if case.get("bad_first"):
+        before_all = (snap(die.specialized_regions), snap(die.ground_regions), snap(die.blockages), snap(die.fixed_regions))
+        rb, nb = case["bad_first"]
+        ok, e = ctx.call(die.split_refinable_regions, rb, nb)
+        ctx.count("inadmissible_requests_first")
+        if ok:
+            ctx.violation("inadmissible_accepted", f"split_refinable_regions({rb},{nb}) was accepted")
+        if (snap(die.specialized_regions), snap(die.ground_regions), snap(die.blockages), snap(die.fixed_regions)) != before_all:
+            ctx.violation("refused_request_altered_die", f"a refused request ({rb},{nb}) altered the die: {case['die']}")
+            return
     for (r, n) in case["steps"]:
         if len(die.specialized_regions) + len(die.ground_regions) > 300:
             ctx.count("sequence_cut_short_by_size_cap")
